@@ -22,6 +22,7 @@ import (
 	"net"
 	"net/netip"
 	"os"
+	"reflect"
 	"sort"
 	"strings"
 	"sync"
@@ -119,7 +120,24 @@ func c09AnswerRR(name string, qtype uint16, ans int) dnsmessage.RR {
 		ip[14], ip[15] = byte(ans>>8), byte(ans)
 		return &dnsmessage.AAAA{Hdr: dnsmessage.RR_Header{Name: name, Rrtype: dnsmessage.TypeAAAA, Class: dnsmessage.ClassINET, Ttl: 3600}, AAAA: ip}
 	}
+	if qtype != dnsmessage.TypeA {
+		// any other type: the payload token travels in a TXT record (the controller does not look at RR types)
+		return &dnsmessage.TXT{Hdr: dnsmessage.RR_Header{Name: name, Rrtype: dnsmessage.TypeTXT, Class: dnsmessage.ClassINET, Ttl: 3600}, Txt: []string{fmt.Sprintf("t%d", ans)}}
+	}
 	return &dnsmessage.A{Hdr: dnsmessage.RR_Header{Name: name, Rrtype: dnsmessage.TypeA, Class: dnsmessage.ClassINET, Ttl: 3600}, A: net.IPv4(10, 9, byte(ans>>8), byte(ans)).To4()}
+}
+
+// c09Qtypes: A, AAAA, and types whose decimal renderings sit next to each other in the cache key
+// (SVCB 64 / HTTPS 65), TXT, CNAME.
+var c09QtypePairs = [][2]int{{1, 28}, {1, 28}, {1, 28}, {64, 65}, {64, 65}, {16, 5}, {1, 65}, {28, 64}}
+
+func c09OtherQtype(r *VRand, qt int) int {
+	all := []int{1, 28, 16, 5, 64, 65}
+	for {
+		if o := all[r.Intn(len(all))]; o != qt {
+			return o
+		}
+	}
 }
 
 func c09AnsToken(rrs []dnsmessage.RR) int {
@@ -132,6 +150,13 @@ func c09AnsToken(rrs []dnsmessage.RR) int {
 		return int(ip[2])<<8 | int(ip[3])
 	case *dnsmessage.AAAA:
 		return int(r.AAAA[14])<<8 | int(r.AAAA[15])
+	case *dnsmessage.TXT:
+		var n int
+		if len(r.Txt) == 1 {
+			if _, err := fmt.Sscanf(r.Txt[0], "t%d", &n); err == nil {
+				return n
+			}
+		}
 	}
 	return -1
 }
@@ -639,6 +664,7 @@ type c09Att struct {
 	tc      bool
 	ans     int
 	ttl0    bool // the answer record has TTL 0 (stored, but expired at the very next lookup)
+	many    int  // number of answer records (0 = one): 90 A records pack to more than 1024 bytes
 }
 
 func (a c09Att) tok() string {
@@ -716,6 +742,9 @@ func (f *c09ScriptFwd) ForwardDNS(ctx context.Context, data []byte) (*dnsmessage
 			m.Answer[0].Header().Class = uint16(cls)
 			if a.ttl0 {
 				m.Answer[0].Header().Ttl = 0
+			}
+			for k := 1; k < a.many; k++ {
+				m.Answer = append(m.Answer, c09AnswerRR(dnsmessage.CanonicalName(name), uint16(qt), a.ans+k))
 			}
 		}
 	}
@@ -1020,7 +1049,7 @@ func c09GenAtt(r *VRand, c *c09Client, stat *VStats, pool []int, optimistic bool
 		a.q = c09QStr(c09NameTok(pool[r.Intn(len(pool))], c.route), r.Intn(4), c.qtype, c.cls)
 		stat.Inc("ctl.att.other-name-maybe")
 	case 1: // other type
-		a.q = c09QStr(nt, c.sp, 29-c.qtype, c.cls)
+		a.q = c09QStr(nt, c.sp, c09OtherQtype(r, c.qtype), c.cls)
 		stat.Inc("ctl.att.other-type")
 	case 2:
 		a.q = "-"
@@ -1083,6 +1112,8 @@ func c09RunCtlScenario(r *VRand, st *VStream, stat *VStats, routing *componentdn
 	routes := []string{"a", "a", "u", "t", "b", "b", "r"}
 	route := routes[r.Intn(len(routes))]
 	mixRoutes := r.Chance(0.25)
+	qtypes := c09QtypePairs[r.Intn(len(c09QtypePairs))]
+	stat.Inc(fmt.Sprintf("ctl.scenario.qtypes.%d+%d", qtypes[0], qtypes[1]))
 	// k >= 2 identical questions (different IDs and spellings) in flight together, answered with something
 	// that is NOT kept in the cache: every waiter then takes the post-flight "shared message" branch
 	coalesce := !optimistic && r.Chance(0.3)
@@ -1098,11 +1129,11 @@ func c09RunCtlScenario(r *VRand, st *VStream, stat *VStats, routing *componentdn
 	}
 	var toks []string
 	for i := 0; i < nc; i++ {
-		c := &c09Client{id: ids[r.Intn(2)], n: names[r.Intn(2)], sp: r.Intn(8), qtype: []int{1, 1, 1, 28}[r.Intn(4)], route: route, dst: 0, cls: []int{1, 1, 1, 1, 1, 1, 1, 3, 3, 255}[r.Intn(10)],
+		c := &c09Client{id: ids[r.Intn(2)], n: names[r.Intn(2)], sp: r.Intn(8), qtype: qtypes[[]int{0, 0, 0, 1}[r.Intn(4)]], route: route, dst: 0, cls: []int{1, 1, 1, 1, 1, 1, 1, 3, 3, 255}[r.Intn(10)],
 			w: &c09Writer{gate: make(chan struct{})}, done: make(chan error, 1)}
 		if r.Chance(0.6) || optimistic && r.Chance(0.6) {
 			c.n = names[0] // mostly the same question
-			c.qtype = 1
+			c.qtype = qtypes[0]
 		}
 		if mixRoutes {
 			c.route = routes[r.Intn(len(routes))]
@@ -1111,7 +1142,7 @@ func c09RunCtlScenario(r *VRand, st *VStream, stat *VStats, routing *componentdn
 			c.dst = 1 + r.Intn(2)
 		}
 		if coalesce {
-			c.id, c.n, c.qtype, c.route, c.dst = (ids[0]+i*7919)%65536, names[0], 1, route, 0
+			c.id, c.n, c.qtype, c.route, c.dst = (ids[0]+i*7919)%65536, names[0], qtypes[0], route, 0
 			if i > 0 && r.Chance(0.85) {
 				c.cls = w.clients[0].cls // mostly the same class too; a few of another class must NOT be coalesced
 			}
@@ -1683,6 +1714,137 @@ func c09UdpPath(r *VRand, st *VStream, stat *VStats, routing *componentdns.Dns) 
 		attempt, whys = 0, whys[:0]
 		stat.Inc("ctl.udppath.rounds-completed")
 		stat.Add("ctl.udppath.coalesced", w.ncalls()-nBefore)
+	}
+
+	// ---- oversized cached replies (> 1024 bytes: the branch of writeCachedResponse that cannot use the pooled
+	// buffer), hit by several clients at once.  The handlers are parked between "ID patched" and "sent" by
+	// holding the write lock of the reply-socket pool shard: sendPkt's lookup takes its read lock.  The number
+	// of readers queued on the RWMutex is read from the mutex itself, so the release does not depend on timing
+	// (if that fails, a plain pause is used: it only affects how many handlers overlap, never what is reported).
+	bigRounds := 40
+	if VThorough() {
+		bigRounds = 300
+	}
+	pendingReaders := func() int {
+		defer func() { _ = recover() }()
+		v := reflect.ValueOf(&shard.mu).Elem().FieldByName("readerCount")
+		if v.Kind() == reflect.Struct {
+			v = v.Field(v.NumField() - 1) // atomic.Int32{_ noCopy; v int32}
+		}
+		n := v.Int()
+		if n < 0 {
+			n += 1 << 30 // rwmutexMaxReaders: a writer holds or waits for the lock
+		}
+		return int(n)
+	}
+	for round := 0; round < bigRounds; round++ {
+		n := 60 + round%30
+		w.ctrl.dnsCache.Range(func(k, _ any) bool {
+			w.ctrl.RemoveDnsRespCache(k.(string))
+			return true
+		})
+		ask := func(conn *net.UDPConn, id, sp int) chan error {
+			q := new(dnsmessage.Msg)
+			q.SetQuestion(c09Name(n, sp, "a"), dnsmessage.TypeA)
+			q.Id = uint16(id)
+			src := conn.LocalAddr().(*net.UDPAddr).AddrPort()
+			req := &udpRequest{realSrc: src, realDst: replyAddr, src: src, lConn: listenerConn, routingResult: &bpfRoutingResult{}}
+			ch := make(chan error, 1)
+			go func() { ch <- w.ctrl.Handle_(context.Background(), q, req) }()
+			return ch
+		}
+		read := func(conn *net.UDPConn) string {
+			buf := make([]byte, 16384)
+			_ = conn.SetReadDeadline(time.Now().Add(20 * time.Second))
+			m, _, err := conn.ReadFromUDPAddrPort(buf)
+			if err != nil {
+				return ""
+			}
+			var msg dnsmessage.Msg
+			if msg.Unpack(buf[:m]) != nil || len(msg.Question) != 1 {
+				return "unparsable"
+			}
+			nn, _, _ := c09ParseName(msg.Question[0].Name)
+			return fmt.Sprintf("id=%d,name=%d,qtype=%d,answers=%d", msg.Id, nn, msg.Question[0].Qtype, len(msg.Answer))
+		}
+		// 1. prime: one client, the upstream answers with 90 records
+		prime := listen()
+		errc := ask(prime, 7, 0)
+		var first *c09Call
+		select {
+		case first = <-callCh:
+		case <-time.After(c09RealBudget):
+		}
+		if first == nil {
+			stat.Inc("ctl.udppath.big.abandoned")
+			prime.Close()
+			newWorld()
+			continue
+		}
+		first.release <- c09Att{id: 7, q: fmt.Sprintf("%d.0.1", n), resp: true, ans: 1 + r.Intn(500), many: 90}
+		select {
+		case <-errc:
+		case <-time.After(c09RealBudget):
+		}
+		_ = read(prime)
+		prime.Close()
+		// the packet path caches asynchronously after sending: wait until the packed entry is there
+		packed := 0
+		for waited := time.Duration(0); waited < c09RealBudget && packed == 0; waited += time.Millisecond {
+			w.ctrl.dnsCache.Range(func(_, v any) bool {
+				if p := v.(*DnsCache).GetPackedResponse(); len(p) > 0 {
+					packed = len(p)
+				}
+				return true
+			})
+			if packed == 0 {
+				time.Sleep(time.Millisecond)
+			}
+		}
+		if packed <= 1024 {
+			stat.Inc("ctl.udppath.big.not-oversized")
+			continue
+		}
+		// 2. k clients hit the entry while the shard is write-locked
+		k := 2 + r.Intn(5)
+		type bc struct {
+			conn *net.UDPConn
+			id   int
+			errc chan error
+		}
+		var bcs []*bc
+		shard.mu.Lock()
+		for i := 0; i < k; i++ {
+			c := &bc{conn: listen(), id: (4000*round + 211*i + 9) % 65536}
+			c.errc = ask(c.conn, c.id, r.Intn(8))
+			bcs = append(bcs, c)
+		}
+		queued := 0
+		for waited := time.Duration(0); waited < 5*time.Second; waited += time.Millisecond {
+			if queued = pendingReaders(); queued >= k {
+				break
+			}
+			time.Sleep(time.Millisecond)
+		}
+		shard.mu.Unlock()
+		stat.Add("ctl.udppath.big.parked-before-send", queued)
+		for i, c := range bcs {
+			select {
+			case <-c.errc:
+			case <-time.After(c09RealBudget):
+			}
+			want := fmt.Sprintf("id=%d,name=%d,qtype=1,answers=90", c.id, n)
+			got := read(c.conn)
+			switch {
+			case got == "":
+				stat.Inc("ctl.udppath.no-datagram")
+			case got != want:
+				st.Emit(fmt.Sprintf("C udppath oversized-cached round=%d waiter=%d of %d packed=%dB want %s", round, i, k, packed, want), got)
+			}
+			stat.Inc("ctl.udppath.big.reply")
+			c.conn.Close()
+		}
+		stat.Inc("ctl.udppath.big.rounds-completed")
 	}
 }
 
